@@ -116,17 +116,26 @@ structure LoadSt where
   count  : Nat
   deriving Repr, Inhabited
 
+/-- "the new module (its priority, its file name) replaces this registered module of the same type and
+    name": the rule is a parameter so that the proposed repair of F17-TIE (Mod/LoadTie.lean) shares
+    everything else with the code as it is -/
+abbrev Beats := Int → Str → Mod → Bool
+
+/-- mod.c as it is: only a strictly higher priority replaces -/
+def beatsPrio : Beats := fun prio _ prev => decide (prio > prev.prio)
+
 /-- _mod_register (after _is_loaded): the new module list and whether the module was loaded.
-    An existing module with the same type and name is deleted iff the new priority is higher;
-    only after that the personality is looked at. -/
-def register (pers : Nat) (mods : List Mod) (fname : Str) (d : Desc) : List Mod × Bool :=
+    An existing module with the same type and name is deleted iff the new one beats it;
+    only after that the personality is looked at (the code before commit 59829e8; the code since then,
+    which tests the personality first, is this function on `persFirstDesc`, see `registerPF_eq`). -/
+def registerG (beats : Beats) (pers : Nat) (mods : List Mod) (fname : Str) (d : Desc) : List Mod × Bool :=
   if mods.any (·.file == fname) then (mods, false)               -- _is_loaded
   else
     match d.type, d.name with
     | some t, some n =>
       match mods.find? (sameKey t n) with
       | some prev =>
-        if d.prio > prev.prio then
+        if beats d.prio fname prev then
           let mods' := mods.filter (!sameKey t n ·)               -- _mod_delete
           if d.pers &&& pers = 0 then (mods', false)
           else (⟨fname, t, n, d.prio, d, false⟩ :: mods', true)   -- list_prepend
@@ -136,21 +145,62 @@ def register (pers : Nat) (mods : List Mod) (fname : Str) (d : Desc) : List Mod 
         else (⟨fname, t, n, d.prio, d, false⟩ :: mods, true)
     | _, _ => (mods, false)
 
+/-- _mod_register since commit 59829e8: the personality is tested FIRST, before an existing module
+    of the same type and name is touched -/
+def registerPF (beats : Beats) (pers : Nat) (mods : List Mod) (fname : Str) (d : Desc) : List Mod × Bool :=
+  if mods.any (·.file == fname) then (mods, false)
+  else
+    match d.type, d.name with
+    | some t, some n =>
+      if d.pers &&& pers = 0 then (mods, false)
+      else
+        match mods.find? (sameKey t n) with
+        | some prev =>
+          if beats d.prio fname prev then
+            (⟨fname, t, n, d.prio, d, false⟩ :: mods.filter (!sameKey t n ·), true)
+          else (mods, false)
+        | none => (⟨fname, t, n, d.prio, d, false⟩ :: mods, true)
+    | _, _ => (mods, false)
+
+/-- for the old order of tests a module that does not fit the personality behaves, under the new
+    order, like an object without a type: refused without touching anything -/
+def persFirstDesc (pers : Nat) (d : Desc) : Desc :=
+  if d.pers &&& pers = 0 then { d with type := none } else d
+
+/-- the code since 59829e8 is the old `registerG` on the rewritten descriptor -/
+theorem registerPF_eq (beats : Beats) (pers : Nat) (mods : List Mod) (fname : Str) (d : Desc) :
+    (registerPF beats pers mods fname d).1 = (registerG beats pers mods fname (persFirstDesc pers d)).1 ∧
+    (registerPF beats pers mods fname d).2 = (registerG beats pers mods fname (persFirstDesc pers d)).2 := by
+  unfold registerPF registerG persFirstDesc
+  by_cases hl : mods.any (·.file == fname) = true
+  · simp [hl]
+  · by_cases hp : d.pers &&& pers = 0
+    · simp only [hl, hp, if_true]
+      cases d.type <;> cases d.name <;> simp
+    · simp only [hl, hp, if_false]
+      cases d.type <;> cases d.name <;> simp only [Bool.false_eq_true, if_false, and_self]
+
+def register : Nat → List Mod → Str → Desc → List Mod × Bool := registerG beatsPrio
+
 /-- _mod_load_dynamic for one object that passed the security tests -/
-def loadObj (pers : Nat) (s : LoadSt) (fname : Str) (obj : Obj) : LoadSt :=
+def loadObjG (beats : Beats) (pers : Nat) (s : LoadSt) (fname : Str) (obj : Obj) : LoadSt :=
   match obj with
   | .mod d =>
-    let r := register pers s.mods fname d
+    let r := registerG beats pers s.mods fname d
     ⟨r.1, s.opened ++ [fname], if r.2 then s.count + 1 else s.count⟩
   | _ => ⟨s.mods, s.opened ++ [fname], s.count⟩
 
-def loadFile (uid owner pers : Nat) (s : LoadSt) (f : File) : LoadSt :=
+def loadFileG (beats : Beats) (uid owner pers : Nat) (s : LoadSt) (f : File) : LoadSt :=
   match f.st with
   | none => s
-  | some st => if fileOk uid owner st then loadObj pers s f.fname f.obj else s
+  | some st => if fileOk uid owner st then loadObjG beats pers s f.fname f.obj else s
 
-def loadFiles (uid owner pers : Nat) (files : List File) : LoadSt :=
-  files.foldl (loadFile uid owner pers) ⟨[], [], 0⟩
+def loadFilesG (beats : Beats) (uid owner pers : Nat) (files : List File) : LoadSt :=
+  files.foldl (loadFileG beats uid owner pers) ⟨[], [], 0⟩
+
+def loadObj : Nat → LoadSt → Str → Obj → LoadSt := loadObjG beatsPrio
+def loadFile : Nat → Nat → Nat → LoadSt → File → LoadSt := loadFileG beatsPrio
+def loadFiles : Nat → Nat → Nat → List File → LoadSt := loadFilesG beatsPrio
 
 /-! ### list_sort with _cmp_f -/
 
@@ -298,21 +348,38 @@ structure Result where
   regs   : List (Str × Str)         -- ghost trace of the successful registrations
   deriving Repr, DecidableEq, Inhabited
 
-/-- mod_load_modules on the chosen directory -/
-def loadDir (e : Env) (d : Dir) : Result :=
+/-- mod_load_modules on the chosen directory, for a replacement rule and a comparison function -/
+def loadDirG (beats : Beats) (cmp : Mod → Mod → Int) (e : Env) (d : Dir) : Result :=
   let base := baseOpts e.pers
   match e.owner with
   | none => ⟨true, [], [], base, [], []⟩
   | some owner =>
     if !pathOk e.uid owner d.path then ⟨true, [], [], base, [], []⟩
     else
-      let ls := loadFiles e.uid owner e.pers d.files
+      let ls := loadFilesG beats e.uid owner e.pers d.files
       if ls.count = 0 then ⟨true, [], [], base, ls.opened, []⟩
       else
-        let r := initPhase e.pers e.misc (listSort cmpF ls.mods)
+        let r := initPhase e.pers e.misc (listSort cmp ls.mods)
         ⟨false, r.1, r.2.calls, r.2.opts, ls.opened, r.2.regs⟩
 
+/-- the code before 59829e8 (and, on `persFirstEnv`, the code since then) -/
+def loadDir : Env → Dir → Result := loadDirG beatsPrio cmpF
+
 def loadAll (e : Env) : Result := loadDir e (chooseDir e)
+
+/-- personality first (commit 59829e8) as a rewriting of the directory contents, see `registerPF_eq` -/
+def persFirstFile (pers : Nat) (f : File) : File :=
+  match f.obj with
+  | .mod d => { f with obj := .mod (persFirstDesc pers d) }
+  | _ => f
+
+def persFirstDir (pers : Nat) (d : Dir) : Dir := { d with files := d.files.map (persFirstFile pers) }
+
+def persFirstEnv (e : Env) : Env :=
+  { e with envDir := e.envDir.map (persFirstDir e.pers), builtin := persFirstDir e.pers e.builtin }
+
+/-- module loading of the code as it is now (personality tested first) -/
+def loadAllPF (e : Env) : Result := loadAll (persFirstEnv e)
 
 /-! ### what happens to an option character on the command line (getopt + mod_process_opt) -/
 
